@@ -193,6 +193,30 @@ CountsOK(s, d, o) ==
     /\ o.nd = NDovetails(s) /\ o.nc = NContainments(s) /\ o.ni = NInternals(s)
     /\ o.nde = NDeadEnds(s)
 
+\* the same two clauses against the document the observation itself shows (its real lines as
+\* written): independent of the history, so they can be evaluated after the specification state
+\* has been lost (C16: the answers are functions of the current document)
+ObsSt(o) == [Init0(Cfg(tid)) EXCEPT !.lines = SeqMap(LAMBDA i : Rec(o.lines[i]), SetToSeq(RealIdx(o))),
+                                   !.ver = IF o.version \in {"gfa1", "gfa2"} THEN o.version ELSE "none"]
+\* the registry against the lines the observation itself shows (C09): an identified line is listed
+\* under its identifier and looking the identifier up returns that line
+SelfRegistry(o) ==
+  LET named == {i \in RealIdx(o) : Named(Rec(o.lines[i]))} IN
+  (IF \A i \in named : Rec(o.lines[i]).name \in Rng(o.names) THEN {} ELSE {"names"})
+  \cup (IF ~LookupListed(o) \/ \A k \in DOMAIN o.look :
+             LET e == o.look[k] IN
+             (\E i \in named : Rec(o.lines[i]).name = e[1]) =>
+                (e[2] >= 1 /\ o.lines[e[2]].virt = 0 /\ Rec(o.lines[e[2]]).name = e[1])
+        THEN {} ELSE {"lookup"})
+SelfFails(o) ==
+  LET s == ObsSt(o) IN
+  SelfRegistry(o) \cup
+  IF VirtIdx(o) # {} \/ PlaceholderIds(s) # {} \/ VirtLinkKeys(s) # {} \/ Ambiguous(s) THEN {}
+  ELSE (IF /\ {Rng(o.cc[k]) : k \in DOMAIN o.cc} = Components(s)
+           /\ Len(o.cc) = Cardinality(Components(s)) THEN {} ELSE {"components"})
+       \cup (IF /\ o.nd = NDovetails(s) /\ o.nc = NContainments(s) /\ o.ni = NInternals(s)
+                /\ o.nde = NDeadEnds(s) THEN {} ELSE {"counts"})
+
 \* unused_name() must return an identifier nobody carries (C09)
 FreshOK(s, e) == e.op.k = "unused" => (e.op.id2 \notin NamesOf(s) \cup PlaceholderIds(s))
 
@@ -252,16 +276,20 @@ Next ==
          sf == StructFails(o)
          \* while orphan placeholders exist (outside the claim) a refused call is compared on the
          \* part of the observation that does not involve placeholders
-         changed == IF ok /\ st.orph THEN o.digr # PrevDigR(tid, l) ELSE o.dig # PrevDig(tid, l)
+         \* (the same once the specification state has been lost: orphans cannot be excluded then)
+         changed == IF ok /\ ~st.orph THEN o.dig # PrevDig(tid, l) ELSE o.digr # PrevDigR(tid, l)
          stutter == (IF e.res # "ok" /\ e.op.k # "load" /\ changed THEN {"stutter"} ELSE {})
                     \* C10: a read-only call leaves the whole observation unchanged and
                     \* answers the same when repeated (and as it did earlier in this state)
                     \cup (IF e.op.k = "query" /\ o.dig # PrevDig(tid, l) THEN {"query-changed"} ELSE {})
                     \cup (IF e.op.k = "query" /\ e.qsame = 0 THEN {"query-unrepeatable"} ELSE {})
-                    \cup (IF e.qsame = 2 THEN {"stutter.query"} ELSE {})
+                    \* (not while orphan placeholders exist -- outside the claim --, nor after the
+                    \* specification state was lost: a refused call may sweep orphans)
+                    \cup (IF e.qsame = 2 /\ ok /\ ~st.orph THEN {"stutter.query"} ELSE {})
      IN
      IF ~ok THEN
-        /\ (IF sf \cup stutter = {} THEN TRUE ELSE PrintT(<<"REJECT", Traces[tid].id, l, sf \cup stutter, "late">>))
+        /\ LET late == sf \cup stutter \cup SelfFails(o) IN
+             IF late = {} THEN TRUE ELSE PrintT(<<"REJECT", Traces[tid].id, l, late, "late">>)
         /\ UNCHANGED <<st, ok>>
      ELSE
        LET outs == Step(st, OpOf(e))
